@@ -50,6 +50,8 @@ Fails(e) ==
     [] e.op = "rend" -> F(e.snap = snap0, "evaluation modified the compiled program, its constants, the variable values or the function table")
     [] e.op = "iso" -> F(e.a1 = e.a2 /\ e.b1 = e.b2 /\ e.c1 = e.c2 /\ e.d = e.c1 /\ e.names0 = e.names1,
                          "customising one instance (its function table or variables) changed the results or the function table of a separate instance")
+    [] e.op = "scrib" -> F(e.again = e.first /\ e.other = e.first /\ e.third = e.first,
+                           "a result that its caller overwrote in place shows through in a later evaluation (results are shared between evaluations)")
     [] e.op = "reent" -> F(e.result = e.want, "an evaluation nested inside another evaluation of the same calculator (through a caller-written function) does not return the sequential result")
     [] e.op = "race" -> F(e.races = 0, "the race detector reported a data race") \o F(e.mismatch = 0, "free-running concurrent evaluations returned results that differ from the sequential ones")
     [] OTHER -> ""
